@@ -140,7 +140,16 @@ Command(c) ==
     /\ budget' = IF c = "continue" THEN budget ELSE budget - 1
     /\ UNCHANGED <<pi, bps, stream, stops>>
 
-Next == BeforeStmt \/ \E c \in {"continue", "into", "over", "out"} : Command(c)
+(* evaluate / watch requests while paused: an expression that evaluates, one that fails at run time and
+   one that does not parse.  Whatever the answer, the session is exactly where it was. *)
+EvalCmds == {"eval_ok", "eval_fail", "eval_bad"}
+Evaluate(c) ==
+    /\ paused /\ budget > 0
+    /\ cmds' = Append(cmds, c)
+    /\ budget' = budget - 1
+    /\ UNCHANGED <<pi, bps, stream, pos, step, paused, stops>>
+
+Next == BeforeStmt \/ (\E c \in {"continue", "into", "over", "out"} : Command(c)) \/ (\E c \in EvalCmds : Evaluate(c))
 Spec == Init /\ [][Next]_vars
 
 Finished == pos > Len(stream) /\ ~paused
@@ -148,7 +157,7 @@ Finished == pos > Len(stream) /\ ~paused
 (* ---- properties ---- *)
 (* with breakpoints only (no stepping), every executed statement on a breakpoint line stops
    exactly once per execution *)
-OnlyContinue == \A i \in 1..Len(cmds) : cmds[i] = "continue"
+OnlyContinue == \A i \in 1..Len(cmds) : cmds[i] \in {"continue"} \cup EvalCmds
 Executions(line) == Len(SelectSeq(stream, LAMBDA e : e.a = line))
 StopsAt(line) == Len(SelectSeq(stops, LAMBDA s : s.line = line))
 StopsExactlyOnce == (Finished /\ OnlyContinue /\ ~GcTwice) => \A b \in bps : StopsAt(b) = Executions(b)
